@@ -6,6 +6,7 @@
 package main
 
 import (
+	"database/sql"
 	"fmt"
 	"os"
 	"os/exec"
@@ -440,6 +441,74 @@ func main() {
 			}
 			rd.out = keep
 			return []string{u}, []string{"INBOX"}
+		})
+		// 5b. the same new out-of-line part arrives in several deliveries at once (a newsletter), next to deliveries with
+		// large parts of their own: every message reads back with its own parts
+		run("same-new-blob", k, func(rd *round, k int) ([]string, []string) {
+			base := ids(k)
+			news := fmt.Sprintf("NEWS-%d ", base) + strings.Repeat(fmt.Sprintf("newsletter line %d\r\n", base), 70)
+			var us, bs []string
+			var wg sync.WaitGroup
+			for i := 0; i < k; i++ {
+				us = append(us, existing())
+				bs = append(bs, "INBOX")
+			}
+			// a schedule rather than luck: another session holds the write lock of the shared database for a moment (as a
+			// long COPY or a delivery's own writes would), so that all the deliveries get past their look-ups — reads are
+			// not blocked — and queue up at their first write
+			var hold *sql.Tx
+			if hdb, err := sql.Open("sqlite3", "file:"+dir+"/data/shared.db?_txlock=immediate&_busy_timeout=5000"); err == nil {
+				defer hdb.Close()
+				if tx, err := hdb.Begin(); err == nil {
+					hold = tx
+				}
+			}
+			for i := 0; i < k; i++ {
+				u := us[i]
+				wg.Add(1)
+				go func(i int, u string) {
+					defer wg.Done()
+					id := base + i
+					big := news
+					if i%3 == 2 {
+						big = fmt.Sprintf("BIGPRIV-%d ", id) + strings.Repeat(fmt.Sprintf("private line %d\r\n", id), 70)
+					}
+					m := fmt.Sprintf("From: sender@example.org\r\nTo: rcpt@example.com\r\nSubject: m%d\r\nMIME-Version: 1.0\r\nContent-Type: multipart/mixed; boundary=nb\r\n\r\n--nb\r\nContent-Type: text/plain\r\n\r\nMARK-%d PRIV-%d\r\n--nb\r\nContent-Type: text/plain\r\n\r\n%s--nb--\r\n", id, id, id, big)
+					st := w.Stor
+					if i%2 == 1 {
+						st = stor2
+					}
+					_, data := w.DeliverWith(st, "sender@example.org", []string{u}, m)
+					ok, r := len(data) == 1 && strings.HasPrefix(data[0], "2"), fmt.Sprint(data)
+					rd.add(outcome{i, "deliver", id, u + "/INBOX", ok, r})
+				}(i, u)
+			}
+			if hold != nil {
+				time.Sleep(400 * time.Millisecond)
+				hold.Commit()
+			}
+			wg.Wait()
+			for i, u := range us {
+				id := base + i
+				c := w.Login(u)
+				c.Cmd("EXAMINE INBOX")
+				txt := strings.Join(c.Cmd("FETCH 1:* (BODY.PEEK[])").Untagged, "\n")
+				c.Close()
+				want := fmt.Sprintf("NEWS-%d ", base)
+				if i%3 == 2 {
+					want = fmt.Sprintf("BIGPRIV-%d ", id)
+				}
+				if !strings.Contains(txt, fmt.Sprintf("PRIV-%d", id)) || !strings.Contains(txt, want) {
+					foreign := ""
+					for j := range us {
+						if j != i && strings.Contains(txt, fmt.Sprintf("BIGPRIV-%d ", base+j)) {
+							foreign = fmt.Sprintf(" — it carries the private part of m%d, delivered to %s", base+j, us[j])
+						}
+					}
+					rep.Violate("impl-violation", "every acknowledged message with its own content (Props.C08.own_content)", fmt.Sprintf("%s: m%d for %s was acknowledged and does not read back with its own large part (%q expected)%s", rd.name, id, u, strings.TrimSpace(want), foreign), []string{"round same-new-blob"})
+				}
+			}
+			return us, bs
 		})
 		// 6. k sessions each add their own keyword to one message: every acknowledged addition must be in effect
 		run("store-keywords", k, func(rd *round, k int) ([]string, []string) {
